@@ -94,7 +94,10 @@ package transaction
 //@   ensures errWF(err)
 //@   ensures lastCreatedTxnSync == (transaction.TransactionStrategy.Synchronicity == configapi.TransactionStrategy_SYNCHRONOUS)
 //@   ensures isType(transaction.Details, "*configapi.Transaction_Rollback") && asType(transaction.Details, "*configapi.Transaction_Rollback") != nil && asType(transaction.Details, "*configapi.Transaction_Rollback").Rollback != nil ==> lastCreatedTxnRollbackIndex == asType(transaction.Details, "*configapi.Transaction_Rollback").Rollback.RollbackIndex
+// A handler that creates a transaction and then watches it must ask for replay: the controllers may finish the
+// transaction before the watcher is registered, and without replay no further event would ever arrive.
 //@ iface Store.Watch(ctx, ch, opts) (err)
+//@   guard {C08} watch-replays-what-was-missed: exists i int :: 0 <= i && i < len(opts) && isType(opts[i], "watchReplayOption")
 //@   modifies txnWatches
 //@   ensures txnWatches == old(txnWatches) + 1
 //@   ensures errWF(err)
